@@ -1,7 +1,6 @@
 # configuration of the check for C07 (see bin/props.py)
 FRAGMENT = {
- 'C07': {'wip': True,  # lead: remove when the world is registered
- 'bin': 'w_c07',
+ 'C07': { 'bin': 'w_c07',
  'world': 'c07',
  'level': 'exploration',
  'quick': {'runs': 24000, 'budget_s': 28, 'workers': 16},
